@@ -45,6 +45,10 @@ def enumerate_cases(tier):
                 if pattern == "checker" and rows * cols > 2:
                     names = {wid(0, 0): "custom"}
                 yield {"naming": {"kind": "plate", "name": "Plate-7", "rows": rows, "cols": cols, "min": 0.0, "max": 100.0, "init": init, "names": names}}
+    for rows, cols in ((2, 2), (3, 4), (8, 12)):
+        init = [[10.0] * cols for _ in range(rows)]
+        yield {"naming": {"kind": "plate", "name": "Plate-7", "rows": rows, "cols": cols, "min": 0.0, "max": 100.0, "init": init, "names": {wid(0, 0): "Plate-7." + wid(1, 0)}}}
+        yield {"naming": {"kind": "plate", "name": "Plate-7", "rows": rows, "cols": cols, "min": 0.0, "max": 100.0, "init": init, "names": {wid(1, 1): "Plate-7." + wid(0, 0), wid(0, 1): "Plate-7." + wid(0, 0)}}}
     for vrows in (1, 2, 8):
         for cols in range(1, 25):
             for pattern in ("full", "checker"):
